@@ -55,6 +55,7 @@ ValueForms == {
 }
 
 Tags == {TagHtml("div"), TagHtml("svg"), TagHtml("input"), TagCustom("i-foo"), TagCustom("x-foo"),
+         TagCustomBound("UiBox", Opq("vUiBox")), TagCustom("Widget"), TagCustom("ION-y"),
          TagComp("Foo", TRUE, Opq("vFoo")), TagComp("Bar", FALSE, Undef),
          TagMember("o2", "Comp", Opq("vo2Comp")), TagMember("o2", "div", Opq("vo2div")), TagFragmentName, TagKeepAlive}
 
@@ -70,7 +71,8 @@ TagCases ==
      t \in Tags,
      as \in {<<>>, <<Plain("id", AvStr(<<"a">>))>>,
              <<Plain("class", AvStr(<<"c">>)), Spread(Ident("sp1", FALSE, Obj(<< <<"class", S(<<101>>)>> >>)))>>},
-     mp \in BOOLEAN, ton \in BOOLEAN, opt \in BOOLEAN, pats \in {<<>>, <<"^i-">>}}
+     mp \in BOOLEAN, ton \in {FALSE}, opt \in BOOLEAN,
+     pats \in {<<>>, <<"^i-">>, <<"^Ui", "foo$">>, <<"(?i)^ion-", "^widget$">>, <<"^widget$", "(?i)^ion-">>}}
 
 FormCases ==
   {[kind |-> "form", tag |-> TagHtml("div"), attrs |-> <<Plain("foo", AvExpr(v))>>, opts |-> BoolOpts(mp, FALSE, TRUE, <<>>)] :
